@@ -66,6 +66,24 @@ def enum_small(tier):
                         yield {"nodes": list(nodes), "start": 0, "maxr": maxr, "follow": follow, "badhost": bad, "bad_after": after}
 
 
+def enum_revisit(tier):
+    """Chains that come back to a host already visited in the same fetch; the host presents its pinned certificate
+    on the first k connections and another one afterwards."""
+    final = {"k": "final"}
+    for via in (1, 2):                      # hop through host b or c in between, or not at all
+        for status in (30, 31, 38):
+            for port in (False, True):
+                for after in (1, 2):
+                    for maxr in (2, 3, 5):
+                        # n0 (a) -> n<via> -> n3 (a) -> final
+                        nodes = [{"k": "redir", "to": via, "status": status, "port": port}, final, final, final]
+                        nodes[via] = {"k": "redir", "to": 3, "status": status, "port": port}
+                        yield {"nodes": nodes, "start": 0, "maxr": maxr, "follow": True, "badhost": "a", "bad_after": after}
+                        # n0 (a) -> n3 (a) directly
+                        nodes2 = [{"k": "redir", "to": 3, "status": status, "port": port}, final, final, final]
+                        yield {"nodes": nodes2, "start": 0, "maxr": maxr, "follow": True, "badhost": "a", "bad_after": after}
+
+
 def walk(case):
     nodes, cur, maxr = case["nodes"], case["start"], case["maxr"]
     followed = 0
@@ -216,6 +234,9 @@ def _labels(case, v):
 
 
 LANES = [
+    Lane(name="revisit", run_case=run_case, enumerate=enum_revisit, budget={"quick": 1, "thorough": 1},
+         shards={"quick": 8, "thorough": 8}, nontrivial=_nontrivial, labels=_labels, exhaustive=True,
+         rule="chains revisiting a host whose certificate changes after its first k connections (enumerated family)"),
     Lane(name="small-graphs", run_case=run_case, enumerate=enum_small, budget={"quick": 1, "thorough": 1},
          shards={"quick": 16, "thorough": 64}, nontrivial=_nontrivial, labels=_labels, exhaustive=True,
          rule="all graphs over N<=2 (quick) / N<=3 (thorough) nodes x max_redirects 0-3 x follow on/off x changed-pin host"),
